@@ -124,12 +124,29 @@ def make_stub(torch):
     return StubJoint
 
 
+ID_SCHEMES = ("distinct", "anonymous", "duplicate", "prefix", "mixed")
+
+
+def param_ids(scheme, k):
+    """identity vs naming: the operator's parameters are told apart by OBJECT and position, never by name"""
+    if scheme == "anonymous":
+        return [None] * k
+    if scheme == "duplicate":
+        return ["q"] * k
+    if scheme == "prefix":
+        return ["q" + "x" * i for i in range(k)][::-1] if k > 1 else ["q"]
+    if scheme == "mixed":
+        return [None if i % 2 == 0 else "q" for i in range(k)]
+    return [f"q{i}" for i in range(k)]
+
+
 def make_params(torch, case):
     from torchtree.core.parameter import Parameter
 
+    ids = param_ids(case.get("ids", "distinct"), len(case["sizes"]))
     out, start = [], 0
     for k, sz in enumerate(case["sizes"]):
-        out.append(Parameter(f"q{k}", torch.tensor(case["q"][start:start + sz], dtype=torch.float64)))
+        out.append(Parameter(ids[k], torch.tensor(case["q"][start:start + sz], dtype=torch.float64)))
         start += sz
     return out
 
@@ -316,6 +333,7 @@ def gen_case(rng, style):
         p = [dyad(rng, -8, 8, rng.choice([0, 2, 4])) for _ in range(n)]
         b = [dyad(rng, -3, 3, rng.choice([0, 1])) for _ in range(n)]
     return {"style": style, "kind": kind, "sizes": sizes, "n": n, "steps": steps, "eps": eps,
+            "ids": rng.choice(ID_SCHEMES),
             "im": im, "q": q, "p": p, "G": G, "b": b}
 
 
@@ -564,6 +582,7 @@ def exact_case(ck: Check, drv, case, fails):
     ck.case(key, sample, nontrivial=moved,
             bucket=f"exact/integrator/{case['kind']}/steps{'1-3' if case['steps'] <= 3 else '4-10' if case['steps'] <= 10 else '11-30'}")
     ck.bucket(f"exact/params-per-operator={len(case['sizes'])}")
+    ck.bucket(f"exact/parameter-ids={case.get('ids', 'distinct')}/{'equal' if len(set(case['sizes'])) == 1 else 'unequal'}-sizes")
     if r[0] == "EXC":
         ck.mismatch("implementation raised", {"case": case, "error": r[1]})
         fails.append(case)
@@ -773,6 +792,17 @@ def search_exact(ck: Check, cases, found):
             return impl_integrate(case, q=q, p=p)
 
         ck.bucket("search/linear-stub")
+        # layout: the same trajectory with distinct parameter names — names must not matter, every parameter
+        # gets its own slice of the flattened position (identity permutation)
+        if case.get("ids", "distinct") != "distinct":
+            r_named, r_plain = impl_integrate(case), impl_integrate(dict(case, ids="distinct"))
+            if r_named != r_plain:
+                found.append(("leapfrog:parameter-layout",
+                              {"oracle": "trajectory with parameter ids %r vs the same parameters with distinct ids"
+                                         % param_ids(case["ids"], len(case["sizes"])),
+                               "err": None if r_named[0] == "EXC" or r_plain[0] == "EXC" else
+                               max(abs(a - b) for a, b in zip(r_named[0] + r_named[1], r_plain[0] + r_plain[1])),
+                               "error": r_named[1] if r_named[0] == "EXC" else None}, {"linear": case}))
         f = oracle_reversal(run, case["q"], case["p"], 1e-9)
         if f:
             found.append(("leapfrog:reversal", f, {"linear": case}))
@@ -1246,6 +1276,10 @@ def replay(path: str) -> int:
         run_ = lambda q, p: impl_integrate(case, q=q, p=p)
         if sig.endswith("jacobian"):
             bad = oracle_jacobian(run_, case["q"], case["p"], 1.0, 1e-9, exact=True)
+        elif sig.endswith("parameter-layout"):
+            a_, b_ = impl_integrate(case), impl_integrate(dict(case, ids="distinct"))
+            print("ids", param_ids(case.get("ids", "distinct"), len(case["sizes"])), "->", a_, "| distinct ids ->", b_)
+            bad = None if a_ == b_ else {"named": a_, "distinct": b_}
         else:
             bad = oracle_reversal(run_, case["q"], case["p"], 1e-9)
     elif "general" in inp:
